@@ -80,7 +80,7 @@ def generate(ck, tier, seed, emit_sim=True):
     vecs = t.vecs.get("VEC", [])
     nbfs = len(vecs)
     if emit_sim:
-        n, depth = (400, 10) if tier == "quick" else (6000, 14)
+        n, depth = (12, 10) if tier == "quick" else (300, 10)  # TLC also evaluates all successors of each state on a trace
         s = vlib.run_tlc("ShSyntax", "ShSyntax.sim.cfg", simulate=n, depth=depth + 1, seed=seed, timeout=1500,
                          env_extra={})
         ck.add_tlc(s)
